@@ -466,7 +466,7 @@ func (g *G) Hash() Cmd {
 	case 31, 32, 33:
 		args := []string{g.Key()}
 		if g.chance(0.7) {
-			args = append(args, g.pick([]string{"0", "1", "2", "5", "-1", "-3", "-7", "x", "100"}))
+			args = append(args, g.pick([]string{"0", "1", "2", "5", "-1", "-3", "-7", "x", "100", "17592186044416", "4611686018427387903"}))
 			if g.chance(0.5) {
 				args = append(args, g.caseMix(g.pick([]string{"WITHVALUES", "WITHVALUES", "NOPE"})))
 			}
@@ -517,12 +517,12 @@ func (g *G) Set() Cmd {
 		if g.chance(0.5) {
 			return g.cmd("SPOP", g.Key())
 		}
-		return g.cmd("SPOP", g.Key(), g.pick([]string{"0", "1", "2", "3", "100", "-1", "x"}))
+		return g.cmd("SPOP", g.Key(), g.pick([]string{"0", "1", "2", "3", "100", "-1", "x", "17592186044416", "4611686018427387903"}))
 	case 22, 23:
 		if g.chance(0.4) {
 			return g.cmd("SRANDMEMBER", g.Key())
 		}
-		return g.cmd("SRANDMEMBER", g.Key(), g.pick([]string{"0", "1", "2", "5", "-1", "-4", "x", "100"}))
+		return g.cmd("SRANDMEMBER", g.Key(), g.pick([]string{"0", "1", "2", "5", "-1", "-4", "x", "100", "17592186044416", "4611686018427387903"}))
 	case 24, 25:
 		return g.cmd("SUNION", g.keysN(1, 4)...)
 	case 26, 27, 28:
